@@ -1007,7 +1007,10 @@ pub fn run_c18(tier: Tier) -> Outcome {
     let _ = q;
     let prios: Vec<i32> = (0..m).collect();
     let alpha = A_CORE | A_BULK | A_CLONE | A_BORROWED | A_PAYLOAD;
-    let cfg = base_cfg(prop, k, &prios, alpha);
+    let mut cfg = base_cfg(prop, k, &prios, alpha);
+    // appended queues of up to 2 elements: longer than the receiver and sharing an item with it
+    // (each appended queue is built with its own hasher instance: different RandomState keys)
+    cfg.append_max = 2;
     let mut fps: Vec<(String, String, u64, u64)> = vec![];
     macro_rules! one {
         ($H:ty, $label:expr) => {{
